@@ -238,7 +238,8 @@ pub fn write_evidence(meta: &EvidenceMeta<'_>, agg: &Aggregate, wall: f64, viola
         "wall_s": wall,
         "violations": violations,
     });
-    let dir = crate::paths::verif_root().join("evidence");
+    // VERIF_EVIDENCE_DIR: scratch runs (tuning, probes) write elsewhere; the registered commands never set it
+    let dir = std::env::var_os("VERIF_EVIDENCE_DIR").map(std::path::PathBuf::from).unwrap_or_else(|| crate::paths::verif_root().join("evidence"));
     let _ = std::fs::create_dir_all(&dir);
     let path = dir.join(format!("{}.json", meta.property));
     std::fs::write(&path, serde_json::to_string_pretty(&v).unwrap()).expect("write evidence");
